@@ -59,6 +59,8 @@ Proof.
   - intros o Hs. rewrite Hg in *. destruct (o =? o0) eqn:Eo; auto.
 Qed.
 
+Ltac unfold_views ::= unfold vchan, vrecv, vhold, vheld, vpend, vxhold in *.
+
 Lemma inv_pump_take s c hi s' : Inv s -> step s (EPumpTake c hi) = Some s' -> Inv s'.
 Proof.
   intros (W & N & I) H. apply step_pump_take in H. cbv zeta in H.
@@ -72,23 +74,38 @@ Proof.
     assert (HA : o_where (go s o0) = PChan T hi).
     { apply W. simpl. unfold vchan. rewrite Hv. apply in_or_app; right; left; reflexivity. }
     apply nodup_app_single in Nd as [Nd1 Nd2].
-    split; [|split].
-    + apply (where_ok_move s _ o0 (PChan T hi) (PHold c)); auto.
-      * intros o pl Hocc. destruct pl; occ_transfer Hocc.
-        -- destruct (eqb hi0 hi) eqn:Eh; [apply eqb_prop in Eh; subst hi0|right; exact Hocc].
+    destruct (o_id (go s o0) =? 0) eqn:Ez.
+    + (* taken for the sentinel: the reference is dropped *)
+      split; [|split].
+      * apply (where_ok_move s _ o0 (PChan T hi) P0); auto.
+        -- intros o pl Hocc. destruct pl; occ_transfer Hocc.
+           destruct (eqb hi0 hi) eqn:Eh; [apply eqb_prop in Eh; subst hi0|right; exact Hocc].
            right. simpl. unfold vchan. fold T. rewrite Hv. apply in_or_app; left; exact Hocc.
-        -- destruct Hocc as [->|[]]. left; auto.
-      * intros _ Hocc. occ_transfer Hocc. rewrite eqb_reflx in Hocc. contradiction.
-      * intros o. autorewrite with frame. destruct (o =? o0); reflexivity.
-    + repeat split; intros; unfold_views; autorewrite with frame; eqb_cases; simpl;
-        rewrite ?vchan_set_chan; auto; try apply N1; try apply N2; try apply N3.
-      destruct (eqb hi0 hi); [exact Nd1|apply N1].
-    + apply (ids_ok_set_where s _ o0 (PHold c) I); [left; rewrite HA; discriminate| |].
-      * intros c0. autorewrite with frame. destruct (c0 =? c) eqn:E; [apply N.eqb_eq in E; subst|]; reflexivity.
-      * intros o. autorewrite with frame. reflexivity.
+        -- intros _ Hocc. occ_transfer Hocc. rewrite eqb_reflx in Hocc. contradiction.
+        -- intros o. autorewrite with frame. destruct (o =? o0); reflexivity.
+      * repeat split; intros; unfold_views; autorewrite with frame; eqb_cases; simpl;
+          rewrite ?vchan_set_chan; auto; try apply N1; try apply N2; try apply N3.
+        destruct (eqb hi0 hi); [exact Nd1|apply N1].
+      * apply (ids_ok_set_where s _ o0 P0 I); [right; reflexivity| |].
+        -- intros c0. autorewrite with frame. destruct (c0 =? c) eqn:E; [apply N.eqb_eq in E; subst|]; reflexivity.
+        -- intros o. autorewrite with frame. reflexivity.
+    + split; [|split].
+      * apply (where_ok_move s _ o0 (PChan T hi) (PHold c)); auto.
+        -- intros o pl Hocc. destruct pl; occ_transfer Hocc.
+           ++ destruct (eqb hi0 hi) eqn:Eh; [apply eqb_prop in Eh; subst hi0|right; exact Hocc].
+              right. simpl. unfold vchan. fold T. rewrite Hv. apply in_or_app; left; exact Hocc.
+           ++ destruct Hocc as [->|[]]. left; auto.
+        -- intros _ Hocc. occ_transfer Hocc. rewrite eqb_reflx in Hocc. contradiction.
+        -- intros o. autorewrite with frame. destruct (o =? o0); reflexivity.
+      * repeat split; intros; unfold_views; autorewrite with frame; eqb_cases; simpl;
+          rewrite ?vchan_set_chan; auto; try apply N1; try apply N2; try apply N3.
+        destruct (eqb hi0 hi); [exact Nd1|apply N1].
+      * apply (ids_ok_set_where s _ o0 (PHold c) I); [left; rewrite HA; discriminate| |].
+        -- intros c0. autorewrite with frame. destruct (c0 =? c) eqn:E; [apply N.eqb_eq in E; subst|]; reflexivity.
+        -- intros o. autorewrite with frame. reflexivity.
   - (* the sentinel: no reference moves *)
     simpl in Hv. rewrite app_nil_r in Hv.
-    apply (static_all s); [exact (conj W (conj (conj N1 (conj N2 (conj N3 N4))) I))| | | | | |];
+    apply (static_all s); [exact (conj W (conj (conj N1 (conj N2 (conj N3 N4))) I))| | | | | | |];
       intros; unfold_views; autorewrite with frame; eqb_cases; simpl; rewrite ?vchan_set_chan; auto.
     + destruct (eqb hi0 hi) eqn:Eh; [apply eqb_prop in Eh; subst hi0; fold T; rewrite Hv|]; reflexivity.
     + rewrite Hh. reflexivity.
@@ -117,7 +134,7 @@ Proof.
       * intros c0. autorewrite with frame. destruct (c0 =? c) eqn:E; [apply N.eqb_eq in E; subst|]; reflexivity.
       * intros o. autorewrite with frame. reflexivity.
   - simpl item_where.
-    apply (static_all s); [exact (conj W (conj (conj N1 (conj N2 (conj N3 N4))) I))| | | | | |];
+    apply (static_all s); [exact (conj W (conj (conj N1 (conj N2 (conj N3 N4))) I))| | | | | | |];
       intros; unfold_views; autorewrite with frame; eqb_cases; simpl; auto.
     rewrite Hh. reflexivity.
 Qed.
@@ -147,7 +164,7 @@ Proof.
       * intros c0. autorewrite with frame. destruct (c0 =? c) eqn:E; [apply N.eqb_eq in E; subst|]; reflexivity.
       * intros o. autorewrite with frame. reflexivity.
   - simpl in Hv. rewrite app_nil_r in Hv. simpl item_where.
-    apply (static_all s); [exact (conj W (conj (conj N1 (conj N2 (conj N3 N4))) I))| | | | | |];
+    apply (static_all s); [exact (conj W (conj (conj N1 (conj N2 (conj N3 N4))) I))| | | | | | |];
       intros; unfold_views; autorewrite with frame; eqb_cases; simpl; auto.
     rewrite Hh. reflexivity.
 Qed.
